@@ -865,4 +865,57 @@ theorem observeP_keys (ps : List PReq) : ∀ (as : List Answer), ∀ e ∈ obser
           exact observe1P_keys p a _ ho
       · exact ih as e he
 
+/-! ### clock readings -/
+
+theorem tryInc2_single_reading (cap : CapFn) (t : Nat) (wd : WindowData) (s : KeyState) :
+    tryInc2 cap t t wd s = tryInc cap t wd s := by
+  simp only [tryInc2, tryInc, ensure2, ensure]
+
+section
+variable {κ : Type} [DecidableEq κ]
+
+theorem stamp_mem_t (ts : List Nat) (cs : List (κ × WindowData)) : ∀ r ∈ stamp ts cs, r.t ∈ ts := by
+  induction ts generalizing cs with
+  | nil => intro r hr; cases cs <;> simp [stamp] at hr
+  | cons t ts ih =>
+    intro r hr
+    cases cs with
+    | nil => simp [stamp] at hr
+    | cons c cs =>
+      obtain ⟨k, wd⟩ := c
+      simp only [stamp, List.mem_cons] at hr ⊢
+      rcases hr with rfl | hr
+      · exact Or.inl rfl
+      · exact Or.inr (ih cs r hr)
+
+theorem stamp_mem_wd (ts : List Nat) (cs : List (κ × WindowData)) :
+    ∀ r ∈ stamp ts cs, (r.key, r.wd) ∈ cs := by
+  induction ts generalizing cs with
+  | nil => intro r hr; cases cs <;> simp [stamp] at hr
+  | cons t ts ih =>
+    intro r hr
+    cases cs with
+    | nil => simp [stamp] at hr
+    | cons c cs =>
+      obtain ⟨k, wd⟩ := c
+      simp only [stamp, List.mem_cons] at hr ⊢
+      rcases hr with rfl | hr
+      · exact Or.inl rfl
+      · exact Or.inr (ih cs r hr)
+
+theorem stamp_monotone (ts : List Nat) (cs : List (κ × WindowData)) (h : ts.Pairwise (· ≤ ·)) :
+    (stamp ts cs).Pairwise (fun a b => a.t ≤ b.t) := by
+  induction ts generalizing cs with
+  | nil => cases cs <;> simp [stamp]
+  | cons t ts ih =>
+    cases cs with
+    | nil => simp [stamp]
+    | cons c cs =>
+      obtain ⟨k, wd⟩ := c
+      rw [List.pairwise_cons] at h
+      simp only [stamp, List.pairwise_cons]
+      exact ⟨fun r hr => h.1 _ (stamp_mem_t ts cs r hr), ih cs h.2⟩
+
+end
+
 end LunarVerif.C09
